@@ -68,6 +68,7 @@ def extreme_values():
         {"": 1}, {"__dict__": 1}, {"__class__": 1}, {"__weakref__": 1}, {"__slots__": 1}, {"__init__": 1}, {"__module__": 1},
         {"\ud800": 1}, {"a" * 1000: 1}, {"_dict": 1, "mro": 2}, {"properties": 1, "default": 2}, {"self": 1, "value": 2, "cls": 3},
         {"a": 10 ** 400}, {"a": "9" * 400}, {"a": deep_list(50)}, {str(i): i for i in range(300)},
+        2 ** 1024 - 1, -(2 ** 1024 - 1), 2 ** 1024 - 2 ** 970, 2 ** 1024 - 2 ** 971, 2 ** 1024, 2 ** 1023 + 2 ** 970, [2 ** 1024 - 1], {"a": -(2 ** 1024 - 1)},
         10 ** 4299, 10 ** 4300, -(10 ** 4400), 10 ** 5000 + 1, [10 ** 4400], [1, 10 ** 4400, 10 ** 4400], {"a": 10 ** 5000}, {"a": [10 ** 5000]}, {"1" * 5000: 1}, "9" * 5000,
         {"a": 1, "__dict__": {"x": 1}}, {"required": 1, "additionalProperties": 2, "validators": 3, "type_validator": 4},
     ]
@@ -198,6 +199,15 @@ def _deep_schema(n, kw):
             node = {"anyOf": [node, {"type": "null"}]}
         elif kw == "additionalProperties":
             node = {"type": "object", "title": "D", "additionalProperties": node}
+    return node
+
+
+def _diamonds(n):
+    """n stacked diamonds: every object schema holds the SAME sub-schema object under two properties (what reference
+    resolution produces for two $refs to one definition); finite, small, and 2**n paths from the root."""
+    node = {"type": "integer"}
+    for i in range(n):
+        node = {"type": "object", "title": "L%d" % i, "properties": {"left": node, "right": node}}
     return node
 
 
@@ -388,6 +398,22 @@ def work(item):
             st.outcome("parse-document/" + kind.split(":")[0])
             if kind not in ("elements", impl.PARSE_ERROR):
                 st.violation("parse-document-escaped:%s" % kind.split(":", 1)[-1], "parse(%s) -> %s" % (json.dumps(runner.jsonable(schema))[:200], kind), {"schema": schema, "entry": "parse", "observed": kind})
+        for n in (8, 16, 24, 40):
+            schema = _diamonds(n)
+            st.add("states")
+            st.add("transitions")
+            try:
+                impl.with_budget(lambda: _pe(schema), 400_000)
+                kind = impl.ELEMENT
+            except SchemaParseError:
+                kind = impl.PARSE_ERROR
+            except impl.Budget:
+                kind = "TIMEOUT"
+            except BaseException as exc:  # noqa
+                kind = "OTHER:" + type(exc).__name__
+            st.outcome("parse-diamonds/" + kind)
+            if kind not in (impl.ELEMENT, impl.PARSE_ERROR):
+                st.violation("parse-shared-subschemas:%s" % kind, "%d stacked diamonds (a %d-node document with shared sub-schema objects): parsing gives %s" % (n, n + 1, kind), {"diamonds": n, "observed": kind})
         for schema in CORNER_SCHEMAS:
             if not metaschema_valid(schema):
                 st.add("dropped_not_metaschema_valid")
